@@ -17,20 +17,24 @@ pub mod timealloc;
 pub use replay::replay;
 
 pub fn run(prop: &str, tier: &str, seed: u64) -> i32 {
-    let run = Run::new(prop, tier, seed);
+    // leaked on purpose: helper threads with a timeout need a 'static reference
+    let run: &'static Run = Box::leak(Box::new(Run::new(prop, tier, seed)));
     match prop {
-        "C01" => c01(&run),
-        "C02" | "C03" | "C15" => c02_c03_c15(&run, prop),
-        "C11" => c11(&run),
-        "C06" => c06(&run),
-        "C07" => tables::run(&run),
-        "C16" => c16(&run),
-        "C19" => c19(&run),
-        "C14" => c14(&run),
-        "C10" => c10(&run),
-        "C04" | "C08" => c04_c08(&run, prop),
-        "C09" => c09(&run),
-        "C18" | "C20" | "SWEEPALL" => generic_sweep(&run, prop),
+        "C01" => c01(run),
+        "C02" | "C03" | "C15" => c02_c03_c15(run, prop),
+        "C11" => c11(run),
+        "C06" => c06(run),
+        "C07" => tables::run(run),
+        "C16" => c16(run),
+        "C19" => c19(run),
+        "C14" => c14(run),
+        "C10" => c10(run),
+        "C04" | "C08" => c04_c08(run, prop),
+        "C09" => c09(run),
+        "C12" => c12(run),
+        "C13" => c13(run),
+        "C17" => c17(run),
+        "C18" | "C20" | "SWEEPALL" => generic_sweep(run, prop),
         _ => {
             eprintln!("unknown property {prop}");
             2
@@ -132,7 +136,7 @@ fn generic_sweep(run: &Run, prop: &str) -> i32 {
 }
 
 /// Replay of the non-position case kinds (operation lists, sessions, scripts ...), dispatched by kind.
-pub fn replay_other(run: &Run, kind: &str, case: &J) -> Option<i32> {
+pub fn replay_other(run: &'static Run, kind: &str, case: &J) -> Option<i32> {
     match kind {
         "ops" => {
             use crate::ops::{self, OpMon};
@@ -162,6 +166,18 @@ pub fn replay_other(run: &Run, kind: &str, case: &J) -> Option<i32> {
         }
         "tt-ops" | "tt-fill" | "tt-generations" => {
             tt::replay(run, case);
+            Some(0)
+        }
+        "uci-script" | "uci-newgame" => {
+            crate::ucichk::replay_uci(run, case);
+            Some(0)
+        }
+        "uci-options" => {
+            crate::ucichk::replay_options(run, case);
+            Some(0)
+        }
+        "position-cmd" => {
+            crate::ucichk::replay_position(run, case);
             Some(0)
         }
         "session" => {
@@ -507,4 +523,33 @@ fn c09(run: &Run) -> i32 {
     }
     run.assume("the stop flag is behind the seam of hook H1 (is_force_stopped); the polling frequency is the production one");
     report::finish(run, s, t, "for each (position, limit): every index k of the poll at which the stop is first observed; after the first true observation no further node visit and no further poll; legal move returned; input position untouched; follow-up searches on the same tables return legal moves and legal lines", true)
+}
+
+fn c12(run: &'static Run) -> i32 {
+    let (s, t) = crate::ucichk::c12(run);
+    for i in 0..3 {
+        run.distinct_outcome(format!("family{i}"));
+    }
+    run.sample(J::obj(vec![("session", J::s("search [kiwipete] depth 5 | sethash 2 | ucinewgame | search [startpos] depth 5   vs   fresh Hash 2: search [startpos] depth 5"))]));
+    run.assume("time / nps fields are removed from the traces; everything else (best move, depth, seldepth, score, line, nodes, hashfull) must be identical");
+    run.assume("machine load: the 16 workers execute duplicates concurrently; wall-clock independence: depth-limited searches under four clock behaviours");
+    report::finish(run, s, t, "(a) every session of length <= 3 executed on independently built states under four clock behaviours gives identical traces; (b) <history, ucinewgame, probe> equals <probe> on a fresh state for every history and probe; (c) the same through the real command loop against a freshly constructed engine", true)
+}
+
+fn c13(run: &'static Run) -> i32 {
+    let (s, t) = crate::ucichk::c13(run);
+    for i in 0..3 {
+        run.distinct_outcome(format!("family{i}"));
+    }
+    run.assume("the option ranges are parsed from the engine's own `uci` answer, so a changed advertisement changes the enumeration");
+    report::finish(run, s, t, "every advertised spin option x the values listed in coverage.families: setoption accepted, isready answered, option value taken, go depth 3 answered by exactly one legal bestmove; the search thread must neither die nor hang", true)
+}
+
+fn c17(run: &Run) -> i32 {
+    let (s, t) = crate::ucichk::c17(run);
+    for i in 0..3 {
+        run.distinct_outcome(format!("family{i}"));
+    }
+    run.assume("oracle: refchess apply() along the game, en-passant field by the tolerant rule; the replies are compared in long algebraic form as the engine's Debug formatting of Move prints them (the form `d perftdiv` uses)");
+    report::finish(run, s, t, "every enumerated game sent as one position command to the real command loop: resulting position equals the rules-level position, FEN dump describes it, history length equals the number of moves, the set of replies equals the legal moves in long algebraic form, bestmove text well-formed and legal", true)
 }
